@@ -173,6 +173,18 @@ def appliedNames (nFuncs : Nat) (n : NamesM) : NamesM :=
   if good.length = n.locals.length then n
   else { n with locals := good, types := [], tables := [], mems := [], globals := [], elems := [], datas := [] }
 
+/-- a module may carry several `name` sections; each is read on its own (so a reader that gives up
+    does so for that section only) and a later section's entries are applied after the earlier ones,
+    the later name winning where both name the same entity -/
+def mergeNames (a b : NamesM) : NamesM :=
+  { module := match b.module with | some m => some m | none => a.module,
+    funcs := a.funcs ++ b.funcs, locals := a.locals ++ b.locals, types := a.types ++ b.types,
+    tables := a.tables ++ b.tables, mems := a.mems ++ b.mems, globals := a.globals ++ b.globals,
+    elems := a.elems ++ b.elems, datas := a.datas ++ b.datas }
+
+def appliedNameSections (nFuncs : Nat) (secs : List NamesM) : NamesM :=
+  (secs.map (appliedNames nFuncs)).foldl mergeNames {}
+
 /-- entries that name an entity the module does not have are skipped (with a warning) -/
 def inRangeNames (nF nY nT nM nG nE nD : Nat) (n : NamesM) : NamesM :=
   { n with funcs := n.funcs.filter (·.1 < nF), types := n.types.filter (·.1 < nY),
